@@ -323,6 +323,13 @@ def release_rules(ck, tm, g, rule):
                 ck.ob(rule, "release-site/%s" % short(b["path"]), tm.target, ok,
                       "%s is called in %s (%s)" % (short(name), b["path"], "allocator reject edge / guard destructor" if ok else "NOT an owner of mappings"),
                       "%s:%d" % (t["span"]["file"], t["span"]["line"]))
+    # call sites of thin wrappers around the primitive count as release sites too (the wrapper's own site is judged above)
+    wrappers = {b["path"] for b in tm.facts.fn_bodies() if b["path"] not in allocs and b["path"] != g.drop_fn and
+                any(name in FREE_FFI for name, foreign, local, t in tm.facts.callees_of(b))}
+    for b in tm.facts.fn_bodies():
+        for name, foreign, local, t in tm.facts.callees_of(b):
+            if name in wrappers:
+                nfree += 1
     ck.floor(rule, "release-sites", nfree, 1 if tm.arch == "arm" else 2, tm.target)
     for p in allocs:
         try:
